@@ -76,6 +76,10 @@ class Env:
     def nop(self):
         return None
 
+    def sel(self):
+        """subject of a match statement: consumes branch outcomes like the nested conditional it stands for"""
+        return 1 if self.c() else (2 if self.c() else 3)
+
     def value(self):
         return NS()
 
@@ -148,6 +152,9 @@ class M:
     def __enter__(self):
         ev = self.env.expect("enter", self.i)
         self.env.inner_probe(ev, "enter", None)
+        if self.env.r.enter_raises[self.i]:
+            self.env.expect("enter_raised", self.i)
+            raise Boom()
         self.env.expect("entered", self.i)
         return build_value(self.shape, self)
 
@@ -155,6 +162,8 @@ class M:
         ev = self.env.expect("exit", self.i, "raise" if exc[0] is not None else "other")
         self.env.inner_probe(ev, "exit", None)
         self.env.expect("exited", self.i)
+        if self.env.r.exit_raises[self.i]:
+            raise Boom()
         return self.i % 3 == 0
 
 
@@ -167,6 +176,9 @@ class AM:
         self.env.inner_probe(ev, "enter", None)
         if self.env.mse:
             await self.env.trap()
+        if self.env.r.enter_raises[self.i]:
+            self.env.expect("enter_raised", self.i)
+            raise Boom()
         self.env.expect("entered", self.i)
         return build_value(self.shape, self)
 
@@ -176,6 +188,8 @@ class AM:
         if self.env.mse:
             await self.env.trap()
         self.env.expect("exited", self.i)
+        if self.env.r.exit_raises[self.i]:
+            raise Boom()
         return self.i % 3 == 0
 
 
@@ -430,6 +444,8 @@ def compile_prog(prog, carrier, running):
         code = compile(r.source, "<verif-prog>", "exec")
     except SyntaxError as ex:
         return None, r, "syntax: %s" % ex
+    for k in range(300):
+        ns["G%d" % k] = k
     exec(code, ns)
     return ns["prog"], r, None
 
@@ -437,6 +453,7 @@ def compile_prog(prog, carrier, running):
 def drive_suspended(fn, r, beh, carrier, checker, observe=True, mask=None, reps=1):
     """run one behaviour in a suspended carrier; returns the transcript (for purity comparisons)"""
     env = Env(r, beh, False, checker)
+    fn.__globals__["GMK"] = env.mk
     obj = fn(env)
     transcript = []
     sends = 0
@@ -488,6 +505,7 @@ def drive_suspended(fn, r, beh, carrier, checker, observe=True, mask=None, reps=
 
 def drive_running(fn, r, beh, carrier, checker):
     env = Env(r, beh, True, checker)
+    fn.__globals__["GMK"] = env.mk
     try:
         if carrier == "func":
             fn(env)
